@@ -206,6 +206,15 @@ func (x *Exec) assumeTypeInv(v *StructV, st *State) {
 	if d == nil {
 		return
 	}
+	// deeply nested objects are only partly modelled; an invariant that cannot be evaluated on them is simply
+	// not assumed (sound: fewer assumptions)
+	defer func() {
+		if r := recover(); r != nil {
+			if _, ok := r.(unsupported); !ok {
+				panic(r)
+			}
+		}
+	}()
 	pk := x.w.Pkgs[d.Pkg]
 	for _, c := range d.Clauses {
 		if c.Kind != "invariant" || c.FnName == "" {
